@@ -277,6 +277,9 @@ AMEND = [
     ("C20", "c_h_factor / sd_nzs / t_eff for classes C, D, E: S_d",
      "c_h_factor / sd_nzs / t_eff for classes C, D, E with three (Z, R, N) sets each: S_d"),
 ]
+AMEND += [
+    ("C04", "validated by Trace_SignalCache", "validated by Trace_SignalCache; next to the graph walk: sibling steps (two objects built from one array: every operation on one leaves the other fresh and unmoved) and explicit-generator steps (non-default settings: equal to a fresh object given the same call, and back to the defaults after the next change)"),
+]
 for _pid, _old, _new in AMEND:
     assert _old in CHECKS[_pid]["text"], (_pid, _old[:50])
     CHECKS[_pid]["text"] = CHECKS[_pid]["text"].replace(_old, _new)
